@@ -89,6 +89,11 @@ pub fn plan(prop: &str, tier: &str) -> Option<Plan> {
             b.add("rc/weak-holder", all, &[], if quick { 2 } else { 4 });
             b.add("rc/upgrade-vs-cascade-child", all, &[&[("age", 4), ("pre", 2)], &[("age", 4), ("pre", 3)]], bq);
             b.add("rc/bulk-shares", all, &[&[("kind", 0)], &[("kind", 1)]], if quick { 2 } else { 4 });
+            // every bulk-constructor configuration: shares of new_many / new_many_iter and the
+            // receiver of weak_many are strong owners too
+            for &e0 in (if quick { &[0i64][..] } else { few }).iter() {
+                b.add_cases("seq/bulk", e(e0).set("noclaim", 1), seq::bulk_specs().len() as i64, 40);
+            }
             if !quick {
                 // the epoch collector's own steps become scheduling points too
                 for s in ["rc/upgrade-vs-attempt", "rc/counted-vs-last-drop", "rc/upgrade-vs-cascade-child"] {
@@ -132,6 +137,8 @@ pub fn plan(prop: &str, tier: &str) -> Option<Plan> {
             b.add_sliced("rc/reader-flushes", &[0i64], &[&[("mode", 1)]], if quick { 2 } else { 3 }, 16);
             b.add("rc/snapshot-then-drop", all, &[&[("age", 4), ("pre", 2)], &[("age", 0), ("pre", 2)]], bq);
             b.add("rc/ws-upgrade-vs-attempt", all, &[&[("pre", 2)], &[("pre", 3)]], bq);
+            // the last decrement 15..17 and 32 epochs before the upgrade (stamp aliasing)
+            b.add("rc/ws-upgrade-vs-attempt", few, &[&[("pre", 2), ("dist", 15)], &[("pre", 2), ("dist", 16)], &[("pre", 2), ("dist", 17)], &[("pre", 2), ("dist", 32)], &[("pre", 3), ("dist", 16)]], bq);
             b.add("rc/ws-upgrade-vs-cascade-child", all, &[&[("age", 4), ("pre", 2)]], bq);
             b.add("rc/reactivate", all, &[], if quick { 2 } else { 4 });
             b.add("rc/link-into-unlinked", if quick { few } else { all }, &[&[("pre", 2)], &[("pre", 0)]], if quick { 2 } else { 3 });
@@ -202,6 +209,8 @@ pub fn plan(prop: &str, tier: &str) -> Option<Plan> {
             b.add("rc/two-upgraders", all, &[&[("pre", 2), ("claim", 5)]], if quick { 2 } else { 4 });
             b.add("rc/upgrade-vs-cascade-child", all, &[&[("age", 4), ("pre", 2), ("claim", 5)], &[("age", 4), ("pre", 3), ("claim", 5)]], bq);
             b.add("rc/ws-upgrade-vs-attempt", all, &[&[("pre", 2), ("claim", 5)], &[("pre", 3), ("claim", 5)]], bq);
+            b.add("rc/ws-upgrade-vs-attempt", few, &[&[("pre", 2), ("dist", 15), ("claim", 5)], &[("pre", 2), ("dist", 16), ("claim", 5)], &[("pre", 2), ("dist", 17), ("claim", 5)], &[("pre", 2), ("dist", 32), ("claim", 5)], &[("pre", 3), ("dist", 16), ("claim", 5)]], bq);
+            b.add("rc/upgrade-vs-attempt", few, &[&[("pre", 2), ("dist", 16), ("claim", 5)], &[("pre", 2), ("dist", 17), ("claim", 5)]], bq);
             b.add("rc/ws-upgrade-vs-cascade-child", all, &[&[("age", 4), ("pre", 2), ("claim", 5)]], bq);
             b.add("rc/weak-holder", all, &[&[("claim", 5)]], if quick { 2 } else { 4 });
             let depth = if quick { 4 } else { 6 };
@@ -242,6 +251,13 @@ pub fn plan(prop: &str, tier: &str) -> Option<Plan> {
                     }
                 }
             }
+            // every short history of link operations (including storing / swapping / CASing in
+            // the object the link already holds) must leave nothing behind either
+            {
+                let depth = if quick { 3 } else { 4 };
+                b.add_cases("seq/cell", e(0).set("noclaim", 1), seq::seq_cases(seq::cell_alphabet().len(), depth), 1500);
+                b.add_cases("seq/wcell", e(0).set("noclaim", 1), seq::seq_cases(seq::wcell_alphabet().len(), depth), 1500);
+            }
             let bq = if quick { 2 } else { 4 };
             b.add("rc/concurrent-release", all, &[&[("shape", 0)], &[("shape", 1)], &[("shape", 2)]], bq);
             b.add("rc/dag-shared-child", all, &[&[("age", 4)], &[("age", 0)]], bq);
@@ -267,6 +283,10 @@ pub fn plan(prop: &str, tier: &str) -> Option<Plan> {
             let res: Vec<i64> = if quick { vec![0, 1, 2, 7, 13, 14, 15] } else { (0..16).collect() };
             for &e0 in res.iter() {
                 b.add_cases("seq/latency", e(e0).set("grid", grid), seq::latency_cases(grid), if quick { 160 } else { 256 });
+            }
+            // the held node is released by another thread while the cascade runs
+            for kk in if quick { vec![1i64, 2] } else { vec![1, 2, 3, 4] } {
+                b.add("rc/latency-vs-holder", if quick { few } else { all }, &[&[("n", 5), ("k", kk), ("age", 4)], &[("n", 5), ("k", kk), ("age", 0)]], if quick { 2 } else { 4 });
             }
             rule = "every point of the grid n x shape {chain, balanced tree, left comb, right comb, right spine (null edge before the live one), zig-zag} x held-node position x link age x link construction {store, From} x epoch residue; each case drops the head and counts epoch advances until the last destructor";
             bounds = json!({"n": if quick { seq::LAT_NS_QUICK.to_vec() } else { seq::LAT_NS.to_vec() }, "residues": res, "bound": "16 + 12*ceil(n/1024) epochs"});
